@@ -183,7 +183,12 @@ def ensure_facts(cfg_name="trusted", root=None, verbose=False):
         if have == stamp and all_exist:
             return facts_dir
         t0 = time.time()
-        if not all_exist:
+        with open(DRIVER_BIN, "rb") as fh:
+            drv = hashlib.blake2b(fh.read(), digest_size=16).hexdigest()
+        drv_path = os.path.join(facts_dir, "DRIVER_STAMP")
+        drv_have = open(drv_path).read().strip() if os.path.exists(drv_path) else ""
+        if not all_exist or drv != drv_have:
+            # cargo does not track the wrapper's content: force the members through the new driver
             _wipe_member_fingerprints(target_dir, [p for p in cfg["pkgs"]])
         r = _run_cargo(root, cfg_name, cfg, facts_dir, target_dir)
         if r.returncode != 0:
@@ -202,6 +207,8 @@ def ensure_facts(cfg_name="trusted", root=None, verbose=False):
                 raise SystemExit("BROKEN: facts not fresh after regeneration: %s" % err)
         with open(stamp_path, "w") as fh:
             fh.write(stamp)
+        with open(drv_path, "w") as fh:
+            fh.write(drv)
         if verbose:
             sys.stderr.write("[facts] %s regenerated in %.1fs\n" % (cfg_name, time.time() - t0))
     return facts_dir
